@@ -30,7 +30,7 @@ COMPONENTS = {"real": ["TradingEnv", "Transmitter", "Broker", "TrackRecord", "Re
               "harness": ["recording observers", "independent Fraction ledger", "reward model"], "stub": []}
 PROBE_FLOORS = {"step_without_trade": 100, "fees_positive": 300, "delay_positive": 97, "reward_clipped": 20,
                 "reward_negative_with_risk_aversion": 20, "interest_credited": 100, "compounding_checked": 16,
-                "own_costs_ruin_injected": 19}
+                "own_costs_ruin_injected": 19, "futures_chain_world": 45}
 
 PROFILE = {
     "n_min": 3, "n_max": 12, "n_long": 40, "p_long": 0.1, "c_min": 1, "c_max": 3, "p_bar": 1.0, "extras_max": 8,
@@ -41,7 +41,30 @@ PROFILE = {
 }
 
 
+def generate_chain(rng, i):
+    """A futures-chain world (C11's generator: rolls, latency windows crossing a last-trading instant)
+    judged as an account: ledger replay, rewards and aggregations across the rolls."""
+    from tesim.props import c11
+    for _ in range(6):
+        sc = c11.generate(rng, i)
+        if not sc.get("construct_only"):
+            break
+    else:
+        return None
+    env = sc["envs"][0]
+    env["reward"] = rng.choice(PROFILE["rewards"])
+    env["state"] = {"type": "rec", "feature": rng.random() < 0.5, "k": 2}
+    env["fees"]["fixed"] = rng.choice([0, 0, 0.5])
+    sc["f11"] = False
+    sc["chain_world"] = True
+    return sc
+
+
 def generate(rng, i):
+    if i % 8 == 7:
+        sc = generate_chain(rng, i)
+        if sc is not None:
+            return sc
     pf = dict(PROFILE)
     if rng.random() < 0.15:
         pf["vol"] = 0.15                 # F4: non-ruinous shocks
@@ -69,6 +92,8 @@ def execute(scenario):
     violations, probes, violate, probe = epicheck.mk_violation_sink()
     h = sim.handles[0]
     recs = [r for r in sim.sink.records if r.get("env") == 0]
+    if scenario.get("chain_world"):
+        probe("futures_chain_world")
     if scenario.get("f11"):
         probe("own_costs_ruin_injected")
         sim.fault("fee_shock")
@@ -325,3 +350,6 @@ def shrink_paths(scenario):
 
 
 from tesim.props.c04 import simplify  # noqa: E402,F401
+
+
+generate = gen_epi.with_backtest_driver(generate, 0.2)
